@@ -134,6 +134,10 @@ class ProgGen:
         args = []
         for n, t, c in f.params:
             if A.is_arr(t):
+                if t == Arr(BYTE, True) and self.cfg['strings'] and self.r.random() < 0.3:
+                    # a string is coercible to const byte[]
+                    args.append(self.expr(STRING, sc, min(d, 2)) if self.r.random() < 0.6 else Cast(self.expr(STRING, sc, 1), Arr(BYTE, True)))
+                    continue
                 cands = [nm for nm, v in sc.items() if A.is_arr(v.t) and v.t.el == t.el and (t.const or not v.t.const)]
                 if not cands:
                     if t.const or self.r.random() < 0.5:
@@ -438,9 +442,9 @@ class ProgGen:
             elif c < 0.93 and ctx.get('ret', 'no') != 'no' and d < self.cfg['stmt_depth']:
                 rt = ctx['ret']
                 out.append(If(self.expr(BOOL, sc, 2), [Ret(self.coerced(rt, sc, 2) if rt != EMPTY else None)]))
-            elif c < 0.965 and self.bump is not None and 'gi' in sc and sc['gi'].glob:
+            elif c < 0.955 and self.bump is not None and 'gi' in sc and sc['gi'].glob:
                 out.extend(self.capture_stmts(sc))
-            elif c < 0.972:
+            elif c < 0.962:
                 # the remaining builtins: sleep(int), debug(), progress()
                 k = r.random()
                 if k < 0.5:
